@@ -498,12 +498,21 @@ def main():
         if not o.get("fallback") and o["kind"] != "requires":
             fn_tags.setdefault(o["fn"], set()).update(o["tags"])
     site_clause = r.get("site_clause", {})
+    failed_fn_tags = {}
+    for oid in r.get("failed", {}):
+        fo = byid.get(oid)
+        if fo is not None and not fo.get("fallback") and fo["kind"] not in ("requires", "site") and fo["tags"]:
+            failed_fn_tags.setdefault(fo["fn"], set()).update(fo["tags"])
     mine = []
     for o in meta["obligations"]:
         if o["kind"] == "vacuity" or o["id"] in und_ids:
             continue
         if o.get("union_tags"):
-            if pid in fn_tags.get(o["fn"], ()):
+            # untagged hints support every tagged clause of their function; when tagged clauses of the same function are
+            # refuted in the same run, the failing untagged text (a frame invariant at a new `continue`, a hint that no longer
+            # fits) is collateral of those and is attributed to their properties only
+            narrowed = failed_fn_tags.get(o["fn"])
+            if pid in (narrowed if narrowed else fn_tags.get(o["fn"], ())):
                 mine.append(o)
         elif o["kind"] == "site" and o["name"].startswith("call:"):
             # a call to a contracted function: belongs to the properties of the callee's requires clauses;
